@@ -55,6 +55,9 @@ type Fut = Pin<Box<dyn Future<Output = Value>>>;
 struct Ctx {
     // field order = drop order: futures and guards borrow from subs / owners
     futs: BTreeMap<i64, (Fut, Arc<Flag>)>,
+    /// a `next_ref()` future that returned Pending, kept for the next poll of the same subscriber (the call is
+    /// one future: its second lock acquisition must not be cancelled by dropping it between polls)
+    ref_futs: BTreeMap<i64, (&'static str, Pin<Box<dyn Future<Output = Option<i64>>>>)>,
     guards: BTreeMap<i64, Guard>,
     subs: BTreeMap<i64, Box<Sub>>,
     owners: BTreeMap<i64, Owner>,
@@ -176,6 +179,12 @@ impl Ctx {
             Some(p) => ret("Val", p.val()),
             None => ret("Nil", 0),
         };
+        // any other call on a subscriber cancels its pending next_ref() future first (it borrows the subscriber)
+        if self.ref_futs.get(&h).map_or(false, |(via, _)| *via != op)
+            && matches!(op, "Poll" | "PollNext" | "PollNextRef" | "NextNow" | "NextRefNow" | "SubGet" | "SubRead" | "Reset" | "CloneSub" | "CloneReset" | "DropSub")
+        {
+            self.ref_futs.remove(&h);
+        }
         match op {
             "Set" | "Take" | "SetIfNotEq" | "SetIfHashNotEq" | "Update" | "UpdateIf" => {
                 let fut = self.writer_future(op, h, a, b);
@@ -351,13 +360,25 @@ impl Ctx {
                 let sub = self.subs.get_mut(&h).expect("sub");
                 let r = match op {
                     "Poll" => Pin::new(&mut **sub).poll_next(&mut cx).map(|o| o.map(|e| e.val())),
-                    "PollNext" => {
-                        let mut fut = Box::pin(sub.next());
-                        fut.as_mut().poll(&mut cx).map(|o| o.map(|e| e.val()))
-                    }
+                    // next() / next_ref(): one (two-stage) future per call, kept while Pending
                     _ => {
-                        let mut fut = Box::pin(sub.next_ref());
-                        fut.as_mut().poll(&mut cx).map(|o| o.map(|g| g.val()))
+                        let via: &'static str = if op == "PollNext" { "PollNext" } else { "PollNextRef" };
+                        let mut fut = match self.ref_futs.remove(&h) {
+                            Some((_, f)) => f,
+                            None => {
+                                let sub: &'static mut Sub = unsafe { ext_mut(&mut **sub) };
+                                if op == "PollNext" {
+                                    Box::pin(async move { sub.next().await.map(|e| e.val()) }) as Pin<Box<dyn Future<Output = Option<i64>>>>
+                                } else {
+                                    Box::pin(async move { sub.next_ref().await.map(|g| g.val()) })
+                                }
+                            }
+                        };
+                        let r = fut.as_mut().poll(&mut cx);
+                        if r.is_pending() {
+                            self.ref_futs.insert(h, (via, fut));
+                        }
+                        r
                     }
                 };
                 self.flags.insert(h, flag);
